@@ -245,6 +245,20 @@ def _check_permutation(c, seen, X, y, labels, perm, learner_name, Xq, how):
                 ("permutation", "labels=" + str(y.dtype.kind), "identity" if ident else "non-identity"),
                 "permuting the targets and applying the reciprocal does not give them back: %r -> %r -> %r (permutation %r)" % (orig[:6], numpy.asarray(y2).tolist()[:6], back[:6], mapping),
             )
+    # ---- several integer target columns stored column-major (what
+    #      DataFrame[[a, b]].values gives): element-wise round trip
+    if y.dtype.kind in "iu" and len(y) >= 2:
+        Y2 = numpy.asfortranarray(numpy.stack([y, y[::-1]], axis=1))
+        ok, r2 = U.sut(c, "perm.transform(2-D)", t.transform, X, Y2)
+        if ok:
+            Y2p = numpy.asarray(r2[1])
+            okb, rb = U.sut(c, "perm.inv.transform(2-D)", inv.transform, X, Y2p) if "inv" in dir() else (False, None)
+            want2 = numpy.array([[mapping[v] for v in row] for row in Y2.tolist()])
+            if Y2p.shape != Y2.shape or not numpy.array_equal(Y2p, want2):
+                _viol(c, seen, "round-trip", ("permutation", "2-D-column-major", "forward"), "a column-major 2-D integer target is not permuted element-wise: %r -> %r, expected %r" % (Y2.tolist()[:3], Y2p.tolist()[:3], want2.tolist()[:3]))
+            elif okb and not numpy.array_equal(numpy.asarray(rb[1]), Y2):
+                _viol(c, seen, "round-trip", ("permutation", "2-D-column-major", "inverse"), "a column-major 2-D integer target does not come back through the reciprocal")
+            c.probe("two_dimensional_column_major_targets")
     # ---- classifier wrapper
     if numpy.any(y != y) if y.dtype.kind == "f" else False:
         return
@@ -374,6 +388,32 @@ def _run_permutation(c, seen, tier):
             except Exception:  # noqa: BLE001
                 pass
             c.entropy.perm_hook = lambda n, p=list(pb): p if n == k else None
+            if ch.boolean("f", 0.3, "refit-fails"):
+                # the second fit is rejected by the inner classifier (NaN in X):
+                # a caller that catches the error and keeps predicting must get
+                # an error or the answers of the model it still has
+                Xbad = X.copy()
+                Xbad[0, 0] = numpy.nan
+                okf, rf = U.sut(c, "ttc.fit(second, rejected)", tt.fit, Xbad, yy2)
+                if not okf:
+                    c.faults_fired["invalid:nan-X"] += 1
+                    okq, pq = U.sut(c, "ttc.predict(after failed refit)", tt.predict, Xq)
+                    okp0, _ = U.sut(c, "plain.fit", plain.fit, X, yy2)
+                    if okq and okp0:
+                        want0 = plain.predict(Xq)
+                        pw00 = numpy.sort(plain.predict_proba(Xq), axis=1)
+                        dec0 = pw00[:, -1] - pw00[:, -2] > 1e-9
+                        if [str(a) for a in numpy.asarray(pq)[dec0].tolist()] != [str(a) for a in want0[dec0].tolist()]:
+                            _viol(
+                                c,
+                                seen,
+                                "equivariance",
+                                ("predict", learner, "after-failed-refit"),
+                                "after a refit that the inner classifier rejected, predict silently returns labels that are neither an error nor those of the model fitted before: %r vs %r" % (numpy.asarray(pq).tolist()[:8], want0.tolist()[:8]),
+                            )
+                    c.probe("predict_after_failed_refit")
+                c.entropy.perm_hook = None
+                return
             ok, r = U.sut(c, "ttc.fit(second)", tt.fit, X, yy2)
             ok2, p2 = U.sut(c, "ttc.predict(second)", tt.predict, Xq)
             okp, _ = U.sut(c, "plain.fit", plain.fit, X, yy2)
